@@ -21,6 +21,7 @@ THEOREMS = [
     # tables regenerated from the live code say what the statement says
     'CpProofs.C06.legal_table_spec',
     'CpProofs.C06.noBody_table_spec',
+    'CpProofs.C06.noBodyStream_table_spec',
     'CpProofs.C06.ie_table_spec',
     'CpProofs.C06.redirect_table_spec',
     # the framing invariant: one lemma per step, every sequence of steps
@@ -30,11 +31,22 @@ THEOREMS = [
     'CpProofs.C06.gzip_CLok',
     'CpProofs.C06.tee_CLok',
     'CpProofs.C06.probe_CLok',
+    'CpProofs.C06.sessions_CLok',
+    'CpProofs.C06.autovary_CLok',
+    'CpProofs.C06.runFailsafe_CLok',
     'CpProofs.C06.setError_CLok',
     'CpProofs.C06.setRedirect_CLok',
     'CpProofs.C06.encodeStage_CLok',
     'CpProofs.C06.serveFile_CLok',
     'CpProofs.C06.handlerStage_CLok',
+    'CpProofs.C06.encodeStage_drops',
+    'CpProofs.C06.xmlrpcSet_CLok',
+    'CpProofs.C06.handlerXmlrpc_CLok',
+    'CpProofs.C06.staticToolStage_ok',
+    'CpProofs.C06.beforeHandlerTools_ok',
+    'CpProofs.C06.runHandler_CLok',
+    'CpProofs.C06.errorResponse_CLok',
+    'CpProofs.C06.handleError_ok',
     'CpProofs.C06.hit_CLok',
     'CpProofs.C06.applyStep_CLok',
     'CpProofs.C06.runSteps_CLok',
@@ -46,6 +58,7 @@ THEOREMS = [
     'CpProofs.C06.respond_ok',
     # the statement at the WSGI boundary
     'CpProofs.C06.serve_framed',
+    'CpProofs.C06.C06_nobody_all',
     'CpProofs.C06.C06_nonstream',
     'CpProofs.C06.C06_stream_partial',
     'CpProofs.C06.C06_cache_consistent',
@@ -56,7 +69,23 @@ THEOREMS = [
     'CpProofs.C06.C06_head_nonstream',
     # what is false on the unchanged code / what the statement does not claim
     'CpProofs.C06.C06_stream_full_false',
-    'CpProofs.C06.stream_204_keeps_body',
+    'CpProofs.C06.stream_204_stripped',
+    'CpProofs.C06.F1_witness_iff',
+    'CpProofs.C06.handlerOk_witness_of_repaired',
+    'CpProofs.C06.xmlrpc_length_false_of_chars',
+    'CpProofs.C06.xmlOk_of_repaired',
+    'CpProofs.C06.xmlOk_of_same_length',
+    'CpProofs.C06.F2_witness_iff',
+    'CpProofs.C06.handlerOk_xmlrpc',
+    # round 2: nested iterators of any depth, HTTP/1.0, the stages before the page handler
+    'CpProofs.C06.flatten_nested_leaves',
+    'CpProofs.C06.deliver_nested',
+    'CpProofs.C06.flatten_bytes_leaves',
+    'CpProofs.C06.http10_ignores_ranges',
+    'CpProofs.C06.redirectCode_spec',
+    'CpProofs.C06.early_refusal_skips_handler',
+    'CpProofs.C06.static_tool_skips_handler',
+    'CpProofs.C06.missing_slash_redirects',
     'CpProofs.C06.stale_copy_ignored_with_its_headers',
     'CpProofs.C06.handlerOk_of_no_own_length',
     'CpProofs.C06.bare_error_framed',
@@ -127,6 +156,11 @@ BODIES = {
     'gen': 'G:b' + H(b'one') + ',b' + H(b'two2') + ',b',
     'egen': 'G:',
     'nested': 'G:b' + H(b'aa') + ',n' + H(b'bb') + '/' + H(b'cc') + '/' + H(b'dd') + ',b' + H(b'e'),
+    'deep': 'G:n' + '/'.join(H(bytes([97 + i])) for i in range(6)) + ',b' + H(b'-') + ',n' + H(b'x') + '/' + H(b'yz'),
+    'ntext': 'G:b' + H(b'aa') + ',n' + H(b'bb') + '/T233.8364/' + H(b'cc'),      # a str leaf two levels down
+    'nraise': 'G:b' + H(b'aa') + ',n' + H(b'bb') + '/' + H(b'cc') + '/R/' + H(b'dd'),   # a producer failing 3 levels down
+    'nraise0': 'G:nR',
+    'lnested': 'L:b' + H(b'aa') + ',n' + H(b'bb') + '/' + H(b'cc'),
     'file': 'F:b' + H(b'file content here'),
     'efile': 'F:',
     'text': 'S:t104.233.8364',                      # 'h\xe9€'  (1, 2, 3 bytes in UTF-8)
@@ -144,6 +178,8 @@ BODIES = {
     'json': 'J:b' + H(b'aa') + ',b' + H(b'b'),
     'big': 'B:b' + H(b'x' * 700),
     'kclose': 'K:b' + H(b'it') + ',b' + H(b'erator'),      # iterator object whose close() raises
+    'xrpc': 'R:t' + '.'.join(str(ord(ch)) for ch in 'plain ascii result'),      # an XML-RPC method result
+    'xrpcu': 'R:t' + '.'.join(str(ord(ch)) for ch in 'r\xe9sultat \u20ac'),   # ... with non-ASCII characters
 }
 # handlers whose value changes from invocation to invocation (length grows / shrinks / becomes empty)
 BODIES.update({
@@ -162,17 +198,21 @@ ALLBYTES = {'bytes', 'empty', 'none', 'list', 'elist', 'gen', 'egen', 'file', 'e
             'kclose'}
 TEXTY = {'text', 'latin', 'tlist', 'tgen', 'tgen2', 'gtext'}
 STATUSES = ['-', 's201', 's204', 's205', 's304', 's100', 's206', 's404', 'i',
-            'e404', 'e402', 'e500', 'e410', 'r303', 'r301', 'r304', 'r305', 'r306', 'x']
+            'e404', 'e402', 'e500', 'e410', 'r303', 'r301', 'r304', 'r305', 'r306', 'x', 'r0']
+XRPC = ('xrpc', 'xrpcu')
 TOOLS = ['encode', 'gzip', 'etags', 'caching', 'expires', 'flatten', 'stream']
 TOOL_LETTER = {'encode': 'e', 'gzip': 'g', 'etags': 't', 'caching': 'c', 'expires': 'x', 'flatten': 'f',
                'stream': 's', 'errfails': 'b'}
 METHODS = ['GET', 'HEAD', 'POST']
 AES = ['-', 'gzip', 'identity', 'gzipq0', 'other', 'idq0']
 CONDS = ['-', 'star', 'match', 'other']
-ACS = ['-', 'utf8', 'latin1', 'ascii', 'star']
+ACS = ['-', 'utf8', 'latin1', 'ascii', 'star', 'ascii2']
 RANGES = ['-', 'bytes=2-5', 'bytes=2-5,7-9', 'bytes=50-', 'bytes=0-', 'bytes=-3', 'bytes=3-2', 'bytes=0-0,19-']
-PAGES = ['tmpl', 'short', 'empty', 'long', 'str', 'iter', 'raise', 'int']
-CTS = ['html', 'plain', 'json', 'octet']
+PAGES = ['tmpl', 'short', 'empty', 'long', 'str', 'iter', 'raise', 'int', 'file']
+CTS = ['html', 'plain', 'json', 'octet', 'xml']
+EXT_KEYS = ('rh', 'acc', 'jin', 'noslash', 'sess', 'av', 'sf', 'er', 'xp', 'tb', 'encu', 'te', 'emsg')
+ERS = ['-', 'c503', 'c204', 'c999', 'r303', 'r304', 'r306']
+ENTS = ['-', 'ok', 'bad', 'nolen']
 KEY_CODES = {100, 200, 201, 204, 205, 206, 301, 303, 304, 305, 402, 404, 406, 410, 412, 416, 500}
 ALL_SUBSETS = [[t for i, t in enumerate(TOOLS) if m >> i & 1] for m in range(1 << len(TOOLS))]
 
@@ -181,35 +221,60 @@ HOOK_PRIOS = [40, 60, 77, 90, 110]
 HOOK_ACTS = ['e402', 'e404', 'e412', 'r303', 'r304', 'r306', 'x', 's204', 's201', 'w' + H(b'REWRITTEN'), 'w']
 
 
-def mk(body='bytes', st='-', tools=(), reqs=None, page='tmpl', ct='html', hcl=0, hstream=0, hook='-'):
+def mk(body='bytes', st='-', tools=(), reqs=None, page='tmpl', ct='html', hcl=0, hstream=0, hook='-', ext=None):
     return {'body': BODIES[body], 'bname': body, 'st': st, 'tools': sorted(tools), 'page': page, 'ct': ct,
-            'hcl': hcl, 'hstream': hstream, 'hook': hook, 'reqs': reqs or [{'m': 'GET'}]}
+            'hcl': hcl, 'hstream': hstream, 'hook': hook, 'reqs': reqs or [{'m': 'GET'}], 'ext': dict(ext or {})}
 
 
-def req(m='GET', ae='-', inm='-', im='-', ac='-', rng='-', cc='-', dt=0):
-    """dt = seconds the logical clock advances before this request"""
-    return {'m': m, 'ae': ae, 'inm': inm, 'im': im, 'ac': ac, 'range': rng, 'cc': cc, 'dt': dt}
+def req(m='GET', ae='-', inm='-', im='-', ac='-', rng='-', cc='-', dt=0, proto='11', ims=0, acc=1, ns=0, ent='-'):
+    """dt = seconds the logical clock advances before this request; proto = 10 | 11; ims = If-Modified-Since equal
+    to the static file's Last-Modified; acc = 1 no Accept header / 2 a matching media range / 0 none matches;
+    ns = the index resource is requested without its trailing slash; ent = the entity of a POST"""
+    return {'m': m, 'ae': ae, 'inm': inm, 'im': im, 'ac': ac, 'range': rng, 'cc': cc, 'dt': dt,
+            'proto': proto, 'ims': ims, 'acc': acc, 'ns': ns, 'ent': ent}
 
 
 def normalise(case):
-    """Keep a case inside the claimed domain (the handler itself never sets a wrong Content-Length)."""
+    """Keep a case inside the claimed domain (the application itself never sets a wrong Content-Length) and inside
+    what the model distinguishes (one cache key per history)."""
     c = dict(case)
     b = c['bname']
     tools = set(c['tools'])
+    ext = {k: v for k, v in (c.get('ext') or {}).items() if v and v != '-'}
     c['reqs'] = [dict(req(), **r) for r in c['reqs']]
     streaming = 'stream' in tools or c.get('hstream')
+    kind = c['body'][0]
+    multi = '|' in c['body']
+    own_ok = (b in ALLBYTES or b in ('static', 'estatic') or
+              (b in ('text', 'latin', 'tlist') and 'encode' in tools and not streaming
+               and c.get('ct') in ('html', 'plain', 'xml'))) and not multi
     if c.get('hcl') == 'u':
         pass      # only used by the recorded finding's witness (handler length assumes UTF-8)
-    elif c.get('hcl'):
-        ok = b in ALLBYTES or b in ('static', 'estatic') or (b in ('text', 'latin', 'tlist') and 'encode' in tools and not streaming
-                               and c.get('ct') in ('html', 'plain'))
-        if not ok:
-            c['hcl'] = 0
-    if '|' in c['body']:
+    elif c.get('hcl') and not own_ok:
+        c['hcl'] = 0
+    if ext.get('rh') and not own_ok:
+        ext.pop('rh')
+    if multi:
         c['hcl'] = 0       # (a fixed own length cannot be right for every generation)
         if b == 'gstatic':
             for r in c['reqs']:
                 r['range'] = '-'
+    if kind == 'R':
+        # an XML-RPC controller: tools.xmlrpc owns request.error_response; plain exceptions from elsewhere would
+        # be reported in a fault whose text the model does not know
+        c['hcl'] = 0
+        for k in ('rh', 'sf', 'er', 'noslash', 'jin', 'acc'):
+            ext.pop(k, None)      # (acc: a refusal before the handler + a failing hook = a fault with another text)
+        tools.discard('errfails')
+        if c['st'] in ('r306', 'i') or (c['st'][0] == 'r' and c['st'] not in ('r0', 'r301', 'r303', 'r304', 'r305')):
+            c['st'] = '-'
+        if c.get('hook', '-') != '-' and c['hook'].split(':')[1] in ('x', 'r306'):
+            c['hook'] = '-'
+        if c.get('page') in ('raise', 'int'):
+            c['page'] = 'tmpl'
+        for r in c['reqs']:
+            r['ns'] = 0
+            r['m'] = 'POST'      # (XML-RPC calls are POSTs: the controller reads the call from the request entity)
     t = 0
     for r in c['reqs']:
         t += int(r.get('dt', 0))
@@ -220,12 +285,99 @@ def normalise(case):
         c['hcl'] = 1 if (c.get('hcl') and b != 'gstatic') else 0
         if c['st'][0] not in '-s':
             c['st'] = '-'
-    else:
+        ext.pop('sf', None)         # (one static entity per case: the Range parser's result is one input)
+    elif not ext.get('sf'):
         for r in c['reqs']:
             r['range'] = '-'
+            r['ims'] = 0
+    if 'errfails' in tools:
+        ext.pop('er', None)
+    if 'expires' not in tools:
+        ext.pop('xp', None)
+    if 'encode' not in tools:
+        ext.pop('encu', None)
+    # one URI per history (the cache is keyed by it)
+    ns = int(any(int(r.get('ns', 0)) for r in c['reqs'])) if kind != 'R' else 0
+    for r in c['reqs']:
+        r['ns'] = ns
+        if r['m'] != 'POST' or not ext.get('jin'):
+            if r.get('ent') == 'nolen':
+                r['ent'] = '-'
+        if r['m'] != 'POST':
+            r['ent'] = '-'
+    if ext.get('av') and ext.get('sess'):
+        # tools.sessions looks up request.headers.get(None) (no path_header), tools.autovary records the None and its
+        # hook fails in ', '.join: every such request is a (well-framed) 500 - not a framing matter, left out
+        ext.pop('av')
+    if ext.get('av'):
+        # tools.autovary lists every request header some tool looked at in Vary, and the cache selects its variant
+        # by all of them: keep them constant over the history, so that there is one variant as in the model
+        first = c['reqs'][0]
+        for k in ('inm', 'im'):
+            if first[k] == 'match':
+                first[k] = 'star'      # ('match' is resolved per request to the tag then current)
+        for r in c['reqs'][1:]:
+            for k in ('ae', 'inm', 'im', 'ac', 'range', 'ims', 'acc', 'proto'):
+                r[k] = first[k]
+        for r in c['reqs']:
+            r['cc'] = '-'
     c['tools'] = sorted(tools)
+    c['ext'] = ext
     c.setdefault('hook', '-')
     return c
+
+
+def _cps(text):
+    return '.'.join(str(ord(ch)) for ch in text)
+
+
+def model_ext(case):
+    """the extension field of the driver line"""
+    ext = case.get('ext') or {}
+    out = []
+    if ext.get('rh'):
+        out.append('rh%d' % R.own_length(case, R.parse_body(case['body'].split('|')[0])[1]))
+    for k in ('acc', 'jin', 'noslash', 'sess', 'av'):
+        if ext.get(k):
+            out.append(k)
+    if ext.get('sf'):
+        out.append('sf' + R.SF_DATA.hex())
+    er = str(ext.get('er', '-'))
+    if er[0] == 'c':
+        out.append('erc%s:%s' % (er[1:], R.ER_BODY.hex()))
+    elif er[0] == 'r':
+        out.append('err' + er[1:])
+    if ext.get('xp'):
+        out.append('xp%d' % int(ext['xp']))
+    if case['body'].startswith('R:'):
+        kind, chunks = R.parse_body(case['body'])
+        text = chunks[0][1] if chunks else ''
+        # the fault tools.xmlrpc answers with: the handler's own exception carries `text`; whatever else fails
+        # here has an ASCII message (its exact wording is not compared)
+        out.append('erx' + _cps(R.xmlrpc_texts(text if case['st'] == 'x' else 'some ascii message')[1]))
+    size = None
+    if ext.get('sf'):
+        size = len(R.SF_DATA)
+    elif case['body'].startswith('X:'):
+        size = R.byte_len(R.parse_body(case['body'].split('|')[0])[1])
+    if size is not None:
+        try:
+            from cherrypy.lib.static import make_boundary
+            blen = len(make_boundary())
+        except Exception:
+            blen = 36
+        out.append('mp%d:%d:%d' % (blen, len(R.CTS[case['ct']]), size))
+    return ','.join(out) or '-'
+
+
+def model_ac(case, ac):
+    """Accept-Charset class -> what the model's request carries (the ordered list of charsets tried is C17's)"""
+    if ac == 'ascii2':
+        ac = 'ascii'
+    if (case.get('ext') or {}).get('encu'):
+        # tools.encode.encoding = 'utf-8': tried only when the client admits it, never the 500 of the default path
+        return 'utf8' if ac in ('-', 'utf8', 'star') else 'none'
+    return ac
 
 
 def model_line(case):
@@ -249,12 +401,16 @@ def model_line(case):
             body = 'G:' + ','.join('b' + x.hex() for x in enc)
         if body.startswith('K:'):
             body = 'G:' + body[2:]        # an iterator object is a one-shot iterator for the model
+        if body.startswith('R:'):
+            kind, chunks = R.parse_body(body)
+            body = 'R:t' + _cps(R.xmlrpc_texts(chunks[0][1] if chunks else '')[0])
         alts.append(body)
     body = '|'.join(alts)
+    static = (case['body'].startswith('X:') and '|' not in case['body']) or (case.get('ext') or {}).get('sf')
     reqs = []
     for r in case['reqs']:
         rg = 'N'
-        if case['body'].startswith('X:') and '|' not in case['body'] and r.get('range', '-') != '-':
+        if static and r.get('range', '-') != '-':
             try:
                 rs = R.ranges_for(case, r)
                 rg = 'N' if rs is None else ('E' if rs == [] else '/'.join('%d-%d' % p for p in rs))
@@ -262,12 +418,14 @@ def model_line(case):
                 rg = 'N'
         inm = 'match' if r['inm'].startswith('"') else r['inm']
         im = 'match' if r['im'].startswith('"') else r['im']
-        reqs.append(','.join([r['m'], r['ae'], inm, im, r['ac'], rg, r.get('cc', '-'), str(r.get('t', 0))]))
+        reqs.append(','.join([r['m'], r['ae'], inm, im, model_ac(case, r['ac']), rg, r.get('cc', '-'),
+                              str(r.get('t', 0)), str(r.get('proto', '11')), str(int(r.get('ims', 0))),
+                              str(int(bool(int(r.get('acc', 1))))), str(int(r.get('ns', 0))), r.get('ent', '-')]))
     hcl = 'N'
     if case['hcl']:
         hcl = str(R.own_length(case, R.parse_body(case['body'].split('|')[0])[1]))
     return ' '.join([tools, page, case['ct'], hcl, str(int(bool(case['hstream']))),
-                     case['st'], body, case.get('hook', '-'), ';'.join(reqs)])
+                     case['st'], body, case.get('hook', '-'), model_ext(case), ';'.join(reqs)])
 
 
 # ----------------------------------------------------------------------------------------------
@@ -295,16 +453,17 @@ def ct_canon(ct):
     return ct.replace(' ', '').lower()
 
 
-def handler_chose(case, code):
-    """the page handler or the user hook is responsible for a body under this status: the handler / hook itself
-    set the status, or the hook assigns a new body (which it may do after the framework produced the 304)"""
-    if case.get('st') == 's%d' % code:
-        return True
-    hook = case.get('hook', '-')
-    if hook == '-':
-        return False
-    act = hook.split(':')[1]
-    return act == 's%d' % code or act.startswith('w')
+def f2_signature(case, o, cl):
+    """finding C06-F2: an XML-RPC result / fault with non-ASCII characters is declared with its length in
+    characters (xmlrpcutil._set_response), so fewer bytes are announced than the UTF-8 body has"""
+    if case['body'].startswith('R:') and not o['aborted'] and not o['ce'] and cl is not None and o['delivered'] > cl:
+        try:
+            case['body'].encode('ascii')
+            text = ''.join(chr(int(x)) for x in case['body'][3:].split('.') if x)
+            text.encode('ascii')
+        except (UnicodeError, ValueError):
+            return 'C06-F2:xmlrpc_content_length_counts_characters'
+    return None
 
 
 def oracle_one(case, i, o, get_twin):
@@ -321,12 +480,15 @@ def oracle_one(case, i, o, get_twin):
         return [('malformed or contradictory Content-Length headers %r' % (o['cl'],), 'malformed_cl')]
     # (a response whose stream flag could not be observed is held to the streamed clauses only: they demand less)
     streamed = o['stream'] is None or o['stream']
-    if not streamed:
-        if NOBODY(code):
-            if cl is not None or o['delivered'] != 0:
-                bad.append(('non-streamed %d response carries Content-Length=%r and %d body bytes'
-                            % (code, cl, o['delivered']), 'nobody_status_framed'))
-        elif cl is None:
+    if NOBODY(code):
+        # "1xx, 204, 205 and 304 responses carry neither body bytes nor Content-Length": every response, streamed or
+        # not, whoever chose the status (finalize tests these statuses first and discards what was assigned before)
+        if cl is not None or o['delivered'] != 0:
+            bad.append(('%s %d response carries Content-Length=%r and %d body bytes'
+                        % ('streamed' if streamed else 'non-streamed', code, cl, o['delivered']),
+                        'nobody_status_framed'))
+    elif not streamed:
+        if cl is None:
             bad.append(('non-streamed %d response (%s) has no Content-Length' % (code, m), 'missing_cl'))
         elif m == 'HEAD':
             if o['delivered'] != 0:
@@ -334,25 +496,19 @@ def oracle_one(case, i, o, get_twin):
         elif o['aborted'] or o['delivered'] != cl:
             bad.append(('non-streamed %d response: Content-Length=%d but %d bytes delivered%s'
                         % (code, cl, o['delivered'], ' (aborted: %s)' % o['aborted'] if o['aborted'] else ''),
-                        'cl_mismatch'))
+                        f2_signature(case, o, cl) or 'cl_mismatch'))
     else:
         if m == 'HEAD':
             if o['delivered'] != 0:
                 bad.append(('HEAD response delivered %d body bytes' % o['delivered'], 'head_has_body'))
         elif cl is not None and (o['aborted'] or o['delivered'] != cl):
-            sig = 'stream_cl_mismatch'
+            sig = f2_signature(case, o, cl) or 'stream_cl_mismatch'
             if case.get('hcl') and case['bname'] in TEXTY and 'encode' in case['tools'] and not o['aborted'] \
                     and o['status'] == 200 and not o['ce']:
                 # the handler's own length on a str body under the streaming encode branch (finding C06-F1)
                 sig = 'C06-F1:own_cl_text_body_streaming_encode'
             bad.append(('streamed %d response: Content-Length=%d but %d bytes produced%s'
                         % (code, cl, o['delivered'], ' (aborted: %s)' % o['aborted'] if o['aborted'] else ''), sig))
-        if NOBODY(code) and m != 'HEAD' and not handler_chose(case, code) and (o['delivered'] != 0 or cl is not None):
-            # "1xx, 204, 205 and 304 responses carry neither body bytes nor Content-Length": for a streamed
-            # response this is demanded only when the framework itself produced that status (a conditional
-            # request answered 304, an HTTPRedirect(304)); a handler that picks 204 and streams a body is not
-            bad.append(('streamed %d response produced by the framework carries Content-Length=%r and %d body bytes'
-                        % (code, cl, o['delivered']), 'stream_nobody_status_framed'))
     if m == 'HEAD':
         # the GET's status line and headers as the application first committed to them: a producer that
         # fails during body iteration (after that point) is the handler's failure, and HEAD cannot see it
@@ -366,7 +522,7 @@ def oracle_one(case, i, o, get_twin):
 
 
 CTMAP = {'text/html': 'html', 'text/plain': 'plain', 'application/json': 'json',
-         'application/octet-stream': 'octet', 'multipart/byteranges': 'multipart'}
+         'application/octet-stream': 'octet', 'multipart/byteranges': 'multipart', 'text/xml': 'xml'}
 CSMAP = {'utf-8': 'utf8', 'iso-8859-1': 'latin1', 'us-ascii': 'ascii'}
 
 
@@ -398,15 +554,18 @@ def canon_model(rec):
             'SRC': d['SRC'], 'GZ': int(d['GZ'])}
 
 
-def compare(impl, model):
-    """List of observables on which the two sides differ (after canonicalisation)."""
+def compare(impl, model, tb=False):
+    """List of observables on which the two sides differ (after canonicalisation).  tb = tracebacks are shown:
+    the bare error then carries one, and its length is not known to the model."""
     diff = []
+    if tb and model['SRC'] == 'bare':
+        model = dict(model, SRC='tmpl')
     for k in ('S', 'E', 'ST', 'CA', 'CE', 'CT'):
         if impl[k] != model[k]:
             diff.append(k)
     if (impl['CL'] == 'N') != (model['CL'] == 'N'):
         diff.append('CL-presence')
-    elif model['SRC'] in ('handler', 'custom', 'bare', 'none') and not model['GZ']:
+    elif model['SRC'] in ('handler', 'custom', 'bare', 'none', 'multipart') and not model['GZ']:
         if impl['CL'] != model['CL']:
             diff.append('CL')
         if impl['D'] != model['D']:
@@ -449,7 +608,7 @@ _HITS = set()
 
 
 def nontrivial(case):
-    return bool(case['tools']) or case['st'] != '-' or '|' in case['body'] or case.get('hook', '-') != '-' or case['bname'] not in ('bytes',) or len(case['reqs']) > 1 \
+    return bool(case['tools']) or bool(case.get('ext')) or case['st'] != '-' or '|' in case['body'] or case.get('hook', '-') != '-' or case['bname'] not in ('bytes',) or len(case['reqs']) > 1 \
         or any(r['m'] != 'GET' or r['ae'] != '-' or r['inm'] != '-' or r['im'] != '-' for r in case['reqs'])
 
 
@@ -480,7 +639,7 @@ def shrink_case(case, sig):
             cands.append(c)
         for i, r in enumerate(cur['reqs']):
             for k, dflt in (('ae', '-'), ('inm', '-'), ('im', '-'), ('ac', '-'), ('range', '-'), ('m', 'GET'),
-                            ('cc', '-')):
+                            ('cc', '-'), ('proto', '11'), ('ims', 0), ('acc', 1), ('ns', 0), ('ent', '-')):
                 if r.get(k, dflt) != dflt:
                     c = json.loads(json.dumps(cur))
                     c['reqs'][i][k] = dflt
@@ -490,6 +649,10 @@ def shrink_case(case, sig):
                 c = json.loads(json.dumps(cur))
                 c[k] = dflt
                 cands.append(c)
+        for k in list(cur.get('ext') or {}):
+            c = json.loads(json.dumps(cur))
+            del c['ext'][k]
+            cands.append(c)
         for simple in ('bytes', 'gbytes'):
             if cur['bname'] not in ('bytes', simple):
                 c = json.loads(json.dumps(cur))
@@ -528,6 +691,12 @@ def process(ctx, cases, compare_model=True, procs=1):
         ctx.count('ntools:%d' % len(case['tools']))
         for t in case['tools']:
             ctx.count('tool:' + t)
+        for k, v in (case.get('ext') or {}).items():
+            ctx.count('ext:%s%s' % (k, '' if v in (1, True) else '=%s' % v))
+        for r in case['reqs']:
+            for k, dflt in (('proto', '11'), ('ims', 0), ('acc', 1), ('ns', 0), ('ent', '-')):
+                if str(r.get(k, dflt)) != str(dflt):
+                    ctx.count('req:%s=%s' % (k, r[k]))
         ctx.count('history:' + '+'.join(r['m'] for r in case['reqs']))
         for r in case['reqs']:
             if r.get('cc', '-') != '-' or r.get('dt'):
@@ -560,7 +729,7 @@ def process(ctx, cases, compare_model=True, procs=1):
                 raise common.HarnessError('driver returned %d records for %d requests' % (len(recs), len(obs)))
             for i, (o, rec) in enumerate(zip(obs, recs)):
                 ci, cm = canon_impl(o), canon_model(rec)
-                d = compare(ci, cm)
+                d = compare(ci, cm, tb=bool((case.get('ext') or {}).get('tb')))
                 if d:
                     ctx.disagree(case, ci, cm, 'request %d differs in %s :: %s' % (i, d, line))
                     break
@@ -677,7 +846,147 @@ def systematic_quick():
             for tools in (['encode'], ['encode', 'stream'], ['encode', 'gzip']):
                 for hcl in (0, 1):
                     out.append(mk(b, '-', tools, [req('GET', ac=ac, ae='gzip')], hcl=hcl))
+    out += systematic_round2()
     return [normalise(c) for c in out]
+
+
+def systematic_round2():
+    """the stages before the page handler, the other built-in tools, HTTP/1.0, XML-RPC, deep nesting"""
+    out = []
+    mixes = ([], ['gzip'], ['stream'], ['caching'], ['etags', 'gzip'], ['encode', 'stream', 'gzip'],
+             ['caching', 'gzip', 'etags', 'encode', 'expires', 'flatten'])
+    # XML-RPC results and faults (ASCII / non-ASCII) x tool mixes x methods
+    for b in XRPC:
+        for st in ('-', 'x', 'e404', 's204', 'r0', 'r304'):
+            for tools in mixes + (['encode'], ['encode', 'stream'], ['encode', 'gzip'], ['etags']):
+                for m in METHODS:
+                    for hs in (0, 1):
+                        rq = req(m, ae='gzip')
+                        out.append(mk(b, st, tools, [rq, dict(rq)] if 'caching' in tools else [rq], hstream=hs,
+                                      page='short'))
+        for hook in ('40:e402:0', '77:w' + H(b'REWRITTEN') + ':1', '90:s204:0', '60:r303:1'):
+            for tools in ([], ['encode'], ['gzip', 'stream']):
+                out.append(mk(b, '-', tools, [req('POST', ae='gzip')], hook=hook))
+    # tools.accept / tools.json_in / tools.trailing_slash refuse or redirect before the page handler runs
+    for b, st, hcl in (('bytes', '-', 1), ('tgen', '-', 0), ('bytes', 'e404', 0), ('json', '-', 0), ('static', '-', 1),
+                       ('gbytes', '-', 0)):
+        for tools in mixes:
+            for page in ('tmpl', 'short', 'iter'):
+                hist = 'caching' in tools
+                for acc in (0, 2):
+                    for m in ('GET', 'HEAD'):
+                        rq = req(m, ae='gzip', acc=acc)
+                        out.append(mk(b, st, tools, [req('GET', ae='gzip'), rq] if hist else [rq], page=page, hcl=hcl,
+                                      ext={'acc': 1, 'rh': hcl}))
+                for ent in ENTS:
+                    rq = req('POST', ae='gzip', ent=ent)
+                    out.append(mk(b, st, tools, [req('GET', ae='gzip'), rq, req('GET', ae='gzip')] if hist else [rq],
+                                  page=page, hcl=hcl, ext={'jin': 1}))
+                for noslash in (0, 1):
+                    for m in METHODS:
+                        rq = req(m, ae='gzip', ns=1)
+                        out.append(mk(b, st, tools, [rq, dict(rq)] if hist else [rq], page=page, hcl=hcl,
+                                      ext={'noslash': noslash, 'sf': int(b == 'tgen')}))
+    # tools.staticfile in front of the page handler: ranges, If-Modified-Since, methods, HTTP/1.0
+    for rg in RANGES:
+        for tools in ([], ['gzip'], ['encode'], ['etags'], ['stream'], ['caching'], ['encode', 'gzip', 'stream']):
+            for m in METHODS:
+                for proto in ('11', '10'):
+                    for ims in (0, 1):
+                        rq = req(m, ae='gzip', rng=rg, proto=proto, ims=ims)
+                        out.append(mk('tgen', '-', tools, [rq, dict(rq)] if 'caching' in tools else [rq],
+                                      ct='plain', ext={'sf': 1}))
+    for rg in ('-', 'bytes=2-5', 'bytes=2-5,7-9', 'bytes=50-'):
+        for tools in ([], ['gzip', 'stream'], ['etags'], ['caching']):
+            for m in METHODS:
+                for st in ('-', 's201', 's404', 's304'):
+                    for ims in (0, 1):
+                        for proto in ('11', '10'):
+                            rq = req(m, ae='gzip', rng=rg, proto=proto, ims=ims)
+                            out.append(mk('static', st, tools, [rq, dict(rq)] if 'caching' in tools else [rq],
+                                          hcl=1))
+    # HTTP/1.0: the status of a redirect without one
+    for st in ('r0', 'r303', 'e404', '-'):
+        for tools in ([], ['gzip'], ['stream'], ['caching', 'expires']):
+            for m in METHODS:
+                out.append(mk('bytes', st, tools, [req(m, ae='gzip', proto='10')], hcl=1))
+    # tools.sessions: sessions.save collapses an iterator body (failsafe: also after an earlier hook failed)
+    for b in ('gen', 'nested', 'deep', 'tgen', 'graise', 'bytes', 'static', 'file', 'ntext', 'kclose', 'fileobj'):
+        for tools in ([], ['flatten'], ['stream'], ['gzip'], ['caching'], ['etags', 'gzip', 'flatten'],
+                      ['encode', 'flatten'], ['expires', 'flatten', 'caching']):
+            for hook in ('-', '40:e402:0', '40:x:0', '60:r303:1', '60:w' + H(b'REWRITTEN') + ':0', '40:s204:0'):
+                for m in ('GET', 'HEAD'):
+                    rq = req(m, ae='gzip')
+                    out.append(mk(b, '-', tools, [rq, dict(rq)] if 'caching' in tools else [rq], hook=hook,
+                                  page='short', ext={'sess': 1}))
+    # tools.autovary (+ caching: one variant per history)
+    for b in ('bytes', 'gen', 'text', 'static', 'gbytes'):
+        for tools in (['caching'], ['caching', 'gzip'], ['caching', 'etags', 'encode'], ['gzip'], ['stream', 'gzip']):
+            for m1, m2 in (('GET', 'GET'), ('GET', 'HEAD'), ('HEAD', 'GET'), ('GET', 'POST')):
+                for inm in ('-', 'star'):
+                    out.append(mk(b, '-', tools, [req(m1, ae='gzip', inm=inm), req(m2, dt=5), req('GET', dt=700)],
+                                  ext={'av': 1}))
+    # request.error_response overrides x every way into handle_error
+    for er in ERS[1:]:
+        for b, st, hook in (('bytes', 'x', '-'), ('tgen', '-', '-'), ('nested', '-', '-'), ('bytes', 'r306', '-'),
+                            ('bytes', '-', '60:x:0'), ('bytes', 'e404', '90:x:1'), ('static', '-', '77:x:1'),
+                            ('bytes', 'i', '-'), ('ntext', '-', '-')):
+            for tools in ([], ['stream'], ['gzip', 'caching'], ['etags'], ['flatten', 'gzip']):
+                for m in METHODS:
+                    rq = req(m, ae='gzip')
+                    out.append(mk(b, st, tools, [rq, dict(rq)] if 'caching' in tools else [rq], hook=hook, hcl=1,
+                                  ext={'er': er, 'sess': int(er == 'c503')}))
+    # tools.expires variants (secs=0 marks the response Pragma: no-cache, which tee_output honours)
+    for xp in (1, 2, 3):
+        for b in ('bytes', 'static', 'gbytes', 'gen'):
+            for tools in (['expires', 'caching'], ['expires', 'caching', 'etags'], ['expires', 'caching', 'gzip'],
+                          ['expires']):
+                for pat in ([req('GET'), req('GET'), req('HEAD')], [req('HEAD'), req('GET', dt=20), req('POST')],
+                            [req('GET', proto='10'), req('GET', inm='star'), req('GET', dt=700)]):
+                    out.append(mk(b, '-', tools, [dict(r, ae='gzip') for r in pat], ext={'xp': xp}))
+    # nested iterators of any depth, with str leaves and failing producers, with / without flatten
+    for b in ('deep', 'ntext', 'nraise', 'nraise0', 'lnested', 'nested'):
+        for tools in ALL_SUBSETS:
+            if 'caching' in tools and 'expires' in tools:
+                continue
+            rq = req('GET', ae='gzip', ac='latin1')
+            out.append(mk(b, '-', tools, [rq, req('HEAD', ae='gzip')] if 'caching' in tools else [rq]))
+    # tools.response_headers configures the Content-Length; a Transfer-Encoding set by the handler is just a header
+    for b in ('bytes', 'gen', 'empty', 'text', 'static', 'fileobj', 'list'):
+        for st in ('-', 's204', 'e404', 'r303', 'x', 's201'):
+            for tools in mixes:
+                for m in ('GET', 'HEAD'):
+                    rq = req(m, ae='gzip')
+                    out.append(mk(b, st, tools, [rq, dict(rq)] if 'caching' in tools else [rq], hcl=0,
+                                  ext={'rh': 1, 'te': 1}))
+    # error texts: HTTPError with its own message, tracebacks in the page, a template file, forced charset
+    for st in ('e404', 'e402', 'e500', 'x'):
+        for page in ('tmpl', 'file', 'short'):
+            for tools in ([], ['gzip'], ['stream'], ['encode', 'gzip']):
+                for m in ('GET', 'HEAD'):
+                    out.append(mk('bytes', st, tools, [req(m, ae='gzip')], page=page,
+                                  ext={'emsg': 1, 'tb': 1}))
+    for b in TEXTY:
+        for ac in ACS:
+            for tools in (['encode'], ['encode', 'stream']):
+                for ct in ('html', 'xml'):
+                    out.append(mk(b, '-', tools, [req('GET', ac=ac)], ct=ct, ext={'encu': 1}))
+                    out.append(mk(b, '-', tools + ['gzip'], [req('GET', ac=ac, ae='gzip')], ct='xml', hcl=1))
+    return out
+
+
+def random_ext(rng, tools):
+    ext = {}
+    if rng.random() < 0.35:
+        for k, p in (('rh', 0.2), ('acc', 0.12), ('jin', 0.12), ('noslash', 0.1), ('sess', 0.2), ('av', 0.08),
+                     ('sf', 0.12), ('tb', 0.1), ('encu', 0.1), ('te', 0.1), ('emsg', 0.1)):
+            if rng.random() < p:
+                ext[k] = 1
+        if rng.random() < 0.15:
+            ext['er'] = rng.choice(ERS[1:])
+        if 'expires' in tools and rng.random() < 0.5:
+            ext['xp'] = rng.choice([1, 2, 3])
+    return ext
 
 
 def random_case(rng):
@@ -695,6 +1004,9 @@ def random_case(rng):
         nreq = 2
     reqs = []
     ae0 = rng.choice(AES) if rng.random() < 0.3 else ('gzip' if 'gzip' in tools else '-')
+    ext = random_ext(rng, tools)
+    ns = int(rng.random() < 0.06)
+    proto0 = '10' if rng.random() < 0.08 else '11'
     for _ in range(nreq):
         reqs.append(req(rng.choice(['GET', 'GET', 'HEAD', 'POST']),
                         ae=ae0 if rng.random() < 0.8 else rng.choice(AES),
@@ -703,12 +1015,18 @@ def random_case(rng):
                         ac=rng.choice(ACS) if rng.random() < 0.4 else '-',
                         rng=rng.choice(RANGES) if rng.random() < 0.5 else '-',
                         cc=rng.choice(CCS) if ('caching' in tools and rng.random() < 0.45) else '-',
-                        dt=rng.choice(DTS) if 'caching' in tools else 0))
+                        dt=rng.choice(DTS) if 'caching' in tools else 0,
+                        proto=proto0 if rng.random() < 0.9 else rng.choice(['10', '11']),
+                        ims=int(rng.random() < 0.15),
+                        acc=rng.choice([0, 2]) if (ext.get('acc') and rng.random() < 0.6) else 1,
+                        ns=ns,
+                        ent=rng.choice(ENTS) if rng.random() < (0.7 if ext.get('jin') else 0.05) else '-'))
     hook = '-'
     if rng.random() < 0.25:
         hook = '%d:%s:%d' % (rng.choice(HOOK_PRIOS), rng.choice(HOOK_ACTS), rng.choice([0, 1, 1]))
-    return normalise(mk(b, st, tools, reqs, page=rng.choice(PAGES), ct=rng.choice(['html', 'html', 'plain', 'json', 'octet']),
-                        hcl=int(rng.random() < 0.35), hstream=int(rng.random() < 0.15), hook=hook))
+    return normalise(mk(b, st, tools, reqs, page=rng.choice(PAGES),
+                        ct=rng.choice(['html', 'html', 'plain', 'json', 'octet', 'xml']),
+                        hcl=int(rng.random() < 0.35), hstream=int(rng.random() < 0.15), hook=hook, ext=ext))
 
 
 def core_lattice():
